@@ -88,6 +88,45 @@ Section Std.
   Definition alg8_U (h vs ks : bytes) : bytes := h ++ vs ++ ks.
   Definition alg8_UE (ik fk : bytes) : bytes := AESE ik zero_iv fk.
 
+  (* Algorithm 9: O = hash(pw || validation salt || U) || validation salt || key salt ;
+     OE = AES-256-CBC(no padding, zero IV) of the file key under hash(pw || key salt || U) *)
+  Definition alg9_O (h vs ks : bytes) : bytes := h ++ vs ++ ks.
+  Definition alg9_OE (ik fk : bytes) : bytes := AESE ik zero_iv fk.
+
+  (* §7.6.4.4.7/8: "the 32 bytes of the hash, followed by 8 bytes of validation salt, followed by 8 bytes of key salt" *)
+  Definition vsalt (X : bytes) : bytes := take 8 (drop 32 X).
+  Definition ksalt (X : bytes) : bytes := take 8 (drop 40 X).
+
+  (* Algorithm 2.A a: the SASLprep-prepared UTF-8 password, "truncate[d] to 127 bytes if it is longer" *)
+  Definition pw56 (prepped : bytes) : bytes := take 127 prepped.
+
+  (* Algorithm 2.A d-e (Algorithm 11): the user password.  Outer None: the hash is not defined on this fuel;
+     inner None: the password is not the user password; inner Some: the file key unwrapped from UE *)
+  Definition alg2a_user (R : N) (fuel : nat) (pw U UE : bytes) : option (option bytes) :=
+    match hash56 R fuel pw (vsalt U) [] with
+    | None => None
+    | Some h =>
+        if bytes_eqb h (take 32 U) then
+          match hash56 R fuel pw (ksalt U) [] with
+          | None => None
+          | Some ik => Some (Some (AESD ik zero_iv UE))
+          end
+        else Some None
+    end.
+
+  (* Algorithm 2.A b-c (Algorithm 12): the owner password; the 48 bytes of U enter both hashes *)
+  Definition alg2a_owner (R : N) (fuel : nat) (pw O U OE : bytes) : option (option bytes) :=
+    match hash56 R fuel pw (vsalt O) U with
+    | None => None
+    | Some h =>
+        if bytes_eqb h (take 32 O) then
+          match hash56 R fuel pw (ksalt O) U with
+          | None => None
+          | Some ik => Some (Some (AESD ik zero_iv OE))
+          end
+        else Some None
+    end.
+
   (* Algorithm 1 / 1.A: per-object key and encryption *)
   Definition obj_key (fk : bytes) (num gen : N) (aes : bool) : bytes :=
     take (N.min (lenN fk + 5) 16) (MD5 (fk ++ le_bytes 3 num ++ le_bytes 2 gen ++ (if aes then salt_tag else []))).
